@@ -31,6 +31,7 @@ MUST = {"sm2.PrivateKey": ["sm2.inverseOfKeyPlus1"], "ecdh.PrivateKey": ["ecdh.p
         "sm9.SignMasterPublicKey": ["sm9.signMaster.pair", "sm9.signMaster.table"],
         "sm9.SignPrivateKey": ["sm9.signMaster.pair", "sm9.signMaster.table"],
         "sm9.EncryptMasterPublicKey": ["sm9.encMaster.pair", "sm9.encMaster.table"],
+        "sm9.EncryptPrivateKey": ["sm9.encMaster.pair", "sm9.encMaster.table"],
         "smx509.CertPool": ["smx509.lazyCert"],
         "singletons.sm2": ["sm2ec.curve", "sm2.p256"], "singletons.bn256": ["bn256.g1Table", "bn256.g2Table"]}
 KINDS = ["sm2.PrivateKey", "sm2.PublicKey", "ecdh.PrivateKey", "sm9.SignMasterPublicKey", "sm9.SignPrivateKey",
@@ -160,6 +161,7 @@ def mkfail(kind_name, trial, events, what, got, exp, step=-1):
 EXPECT = {"double-init": "at most one initialisation per object and site (InitOnce)",
           "early-use": "no goroutine passes the guard before the value is published (UseAfterPublish)",
           "wrong-result": "the result of the same call made sequentially (Linearizable)",
+          "wrong-result-persistent": "the result the library gives when the calls are made one after another in a fresh process",
           "panic": "no panic", "deadlock": "every call returns", "race": "no data race", "crash": "the process survives"}
 
 
@@ -181,7 +183,13 @@ def harvest(ctx, kind_name, rc, sums, stderr, by_t, toy=False):
             if f["what"] == "harness":
                 raise core.Infra("sched: %s trial %d: %s" % (s["kind"], f["trial"], f["detail"]))
             if f["what"] == "deadlock":
-                dump = stderr[stderr.find("SCHED-DEADLOCK"):][:6000]
+                dump = stderr[stderr.find("SCHED-DEADLOCK"):]
+                # a goroutine of the trial that is still running / runnable / sleeping is slow, not deadlocked
+                states = [m.group(1) for m in re.finditer(r"goroutine \d+ \[([^\],]+)[^\]]*\]:\n(?:.+\n)*?.*runPhase\.func1", dump)]
+                if not states or any(st0.split()[0] in ("running", "runnable", "sleep", "syscall") for st0 in states):
+                    raise core.Infra("sched watchdog expired for %s trial %d but its goroutines are not blocked (%s): overloaded machine, not a verdict"
+                                     % (s["kind"], f["trial"], ", ".join(states) or "no goroutine dump"))
+                dump = dump[:6000]
                 fails.append(mkfail(s["kind"], f["trial"], by_t.get(f["trial"], []), "hang", f["detail"] + "\n" + dump, EXPECT["deadlock"]))
                 continue
             fails.append(mkfail(s["kind"], f["trial"], by_t.get(f["trial"], []), f["what"], f["detail"][:4000], EXPECT.get(f["what"], "")))
@@ -205,16 +213,18 @@ def tlc_trace(ctx, path, n, name):
     return st, (not st["ok"])
 
 
-def validate_shard(ctx, by_t, trials, n, name):
-    """Validate the trials of one shard; a rejected trial is reported and the rest is validated again without it.
-    Returns (accepted trials, events consumed, [(trial, index of the first event that is not allowed)])."""
-    rejected = []
+def validate_shard(ctx, by_t, trials, n, name, max_rejects=12):
+    """Validate the trials of one shard.  TLC stops at the first event that is not allowed: the trials before it
+    are accepted, the trial it belongs to is rejected, validation goes on behind it.  After max_rejects rejected
+    trials the rest of the shard is left unvalidated (there is a verdict already).
+    Returns (accepted trials, events consumed, [(trial, index of the offending event)], trials not validated)."""
+    rejected, accepted, consumed = [], [], 0
     todo = list(trials)
     rounds = 0
     while todo:
+        if len(rejected) >= max_rejects:
+            return accepted, consumed, rejected, todo
         rounds += 1
-        if rounds > 25:
-            raise core.Infra("trace validation %s: more than 25 rejected trials in one shard" % name)
         path = os.path.join(ctx.scratch, "val-%s-%d.ndjson" % (name, rounds))
         flat = []
         with open(path, "w") as f:
@@ -224,13 +234,16 @@ def validate_shard(ctx, by_t, trials, n, name):
                     flat.append((t, i))
         st, rej = tlc_trace(ctx, path, n, "Trace_LazyInit_%s_%d" % (name, rounds))
         if not rej:
-            return [t for t in trials if t not in [r[0] for r in rejected]], len(flat), rejected
+            return accepted + todo, consumed + len(flat), rejected, []
         ctx.tlc_runs.remove(st)
         bad = min(max(0, st["depth"] - 1), len(flat) - 1)
         t, i = flat[bad]
+        k = todo.index(t)
+        accepted += todo[:k]
+        consumed += sum(len(by_t[x]) for x in todo[:k])
         rejected.append((t, i))
-        todo = [x for x in todo if x != t]
-    return [t for t in trials if t not in [r[0] for r in rejected]], 0, rejected
+        todo = todo[k + 1:]
+    return accepted, consumed, rejected, []
 
 
 def mutants(events):
@@ -256,6 +269,28 @@ def mutants(events):
         v = events[i]["res"]
         out.append(("corrupted-result", events[:i] + [dict(events[i], res=v[:-1] + ("0" if v[-1] != "0" else "1"))] + events[i + 1:]))
     return out
+
+
+def mutation_guard(ctx, trials_events, n, label):
+    """Every kind of corruption must be rejected by Trace_LazyInit; returns the kinds that could not be built."""
+    need = {"second-init", "done-before-inited", "corrupted-result"}
+    for evs0 in trials_events:
+        for mname, evs in mutants(evs0):
+            if mname not in need:
+                continue
+            path = os.path.join(ctx.scratch, "mut-%s-%s.ndjson" % (label, mname))
+            with open(path, "w") as f:
+                for ev in evs:
+                    f.write(json.dumps(ev) + "\n")
+            st, rej = tlc_trace(ctx, path, n, "Trace_LazyInit_guard_%s_%s" % (label, mname))
+            ctx.tlc_runs.remove(st)
+            if not rej:
+                raise core.Infra("binding guard: Trace_LazyInit accepted a recorded trial with mutation %r" % mname)
+            need.discard(mname)
+            ctx.extra["trace_guard"] = ctx.extra.get("trace_guard", 0) + 1
+        if not need:
+            break
+    return need
 
 
 def shape_of(events):
@@ -299,9 +334,12 @@ def selfcheck(ctx, binp, n, grace):
     if any(kind_of.get(t) == "toy.guarded" for t in raced):
         raise core.Infra("self-check: race report on the Once-guarded toy object - the harness itself races:\n%s" % stderr[-3000:])
     # Trace_LazyInit: accepts the guarded toy, rejects every forced trial of the broken ones at the right event
-    acc, nev, rej = validate_shard(ctx, by_t, [t for t in order if kind_of[t] == "toy.guarded"], n, "toyguarded")
+    acc, nev, rej, _ = validate_shard(ctx, by_t, [t for t in order if kind_of[t] == "toy.guarded"], n, "toyguarded")
     if rej:
         raise core.Infra("self-check: Trace_LazyInit rejected the Once-guarded toy object at %s" % json.dumps(by_t[rej[0][0]][rej[0][1]]))
+    left = mutation_guard(ctx, [by_t[t] for t in acc], n, "toy")
+    if left:
+        raise core.Infra("self-check: could not build mutations %s from the toy recordings" % sorted(left))
     for kname, badkind in (("toy.unguarded", "init"), ("toy.early", "done")):
         ts = [t for t in order if kind_of[t] == kname and by_t[t][0]["res"] == "forced"]
         for t in ts[:2]:
@@ -322,14 +360,47 @@ def selfcheck(ctx, binp, n, grace):
                               "toy.early": "use of half-built value reproduced %d/%d forced trials (wrong result), trace rejected at the early done" % (e["attack_reproduced"], e["attack_attempted"])}
 
 
+# ------------------------------------------------------------------------------------------------ replay of a stored failure
+def replay(ctx, body):
+    """./check C20 --replay FILE (needs `check` to dispatch to the property module): validate the stored trial again with
+    Trace_LazyInit and run the object kind again (forced schedule on every second trial)."""
+    tr = body["trace"]
+    evs = tr.get("steps", [])
+    for i, e in enumerate(evs):
+        print("event %d: %s" % (i, json.dumps(core._shorten(e))))
+    rc = 0
+    n = tr.get("n") or 3
+    if evs:
+        path = os.path.join(ctx.scratch, "replay.ndjson")
+        with open(path, "w") as f:
+            for e in evs:
+                f.write(json.dumps(e) + "\n")
+        st, rej = tlc_trace(ctx, path, n, "Trace_LazyInit_replay")
+        if rej:
+            print("Trace_LazyInit REJECTS the stored trial at event %d" % max(0, st["depth"] - 1))
+            rc = 1
+        else:
+            print("Trace_LazyInit accepts the stored events (failure kind %s is not an event-order failure)" % body["fail"].get("kind"))
+    binp = ctx.build("sched", tags=("verif",), race=True)
+    out = os.path.join(ctx.scratch, "replay-ev.ndjson")
+    prc, sums, stderr, _ = run_sched(binp, ["-kinds", tr["object"], "-n", str(n), "-trials", "60", "-forcedevery", "2", "-seed", str(ctx.seed), "-out", out], 900)
+    by_t, _ = load_events(out)
+    fails = harvest(ctx, tr["object"], prc, sums, stderr, by_t)
+    for f in fails[:5]:
+        print("FAILS again: %s trial %d: %s" % (f["kind"], f["idx"], str(f["got"])[:1500]))
+    if not fails:
+        print("60 new trials of %s: nothing reproduced (schedule-dependent failures need not recur)" % tr["object"])
+    return 1 if (rc or fails) else 0
+
+
 # ------------------------------------------------------------------------------------------------ main
 def run(ctx):
     quick = ctx.tier == "quick"
     n = 3 if quick else 4
     grace = 30 if quick else 40
-    trials = {k: (150 if quick else 600) for k in KINDS}
+    trials = {k: (150 if quick else 1200) for k in KINDS}
     for k in PER_PROCESS:
-        trials[k] = 100 if quick else 400
+        trials[k] = 100 if quick else 800
     with concurrent.futures.ThreadPoolExecutor(max_workers=2) as ex:
         fm = ex.submit(model, ctx, n)
         binp = ctx.build("sched", tags=("verif",), race=True)
@@ -378,7 +449,7 @@ def run(ctx):
             # vacuity: the sites the kind exists for must really have been raced
             for st in MUST.get(k, []):
                 v = s["sites"].get(st, {"inits": 0, "contended": 0})
-                if v["inits"] < 0.9 * s["trials"] or (st not in NESTED_ONLY and v["contended"] < 0.3 * s["trials"]):
+                if v["inits"] < 0.9 * s["trials"] or (st not in NESTED_ONLY and v["contended"] < 0.2 * s["trials"]):
                     if not any(f["idx"] in by_t for f in ctx.fails):
                         raise core.Infra("vacuity: site %s of %s was initialised in %d and contended in %d of %d trials (stale hook or harness?)"
                                          % (st, k, v["inits"], v["contended"], s["trials"]))
@@ -389,8 +460,10 @@ def run(ctx):
     with concurrent.futures.ThreadPoolExecutor(max_workers=nshards) as ex:
         vres = list(ex.map(lambda a: validate_shard(ctx, all_by_t, a[1], n, "s%d" % a[0]), enumerate(shards)))
     accepted = 0
-    for acc, nev, rej in vres:
+    unvalidated = set()
+    for acc, nev, rej, rest in vres:
         accepted += len(acc)
+        unvalidated |= set(rest)
         ctx.extra["events_validated"] = ctx.extra.get("events_validated", 0) + nev
         for t, i in rej:
             evs = all_by_t[t]
@@ -399,33 +472,26 @@ def run(ctx):
     # harness verdicts and TLC verdicts must agree on the event-level failures
     tlc_bad = set(f["idx"] for f in ctx.fails if f["kind"] == "trace-rejected")
     har_bad = set(f["idx"] for f in ctx.fails if f["kind"] in ("double-init", "early-use", "wrong-result"))
-    if har_bad - tlc_bad:
-        raise core.Infra("the harness reports event-level failures in trials %s that Trace_LazyInit accepted" % sorted(har_bad - tlc_bad)[:5])
-    # binding guard: corrupted copies of an accepted recorded trial must be rejected
-    cand = [t for t in all_order if t not in tlc_bad and any(e["kind"] == "inited" for e in all_by_t[t])
+    if har_bad - tlc_bad - unvalidated:
+        raise core.Infra("the harness reports event-level failures in trials %s that Trace_LazyInit accepted" % sorted(har_bad - tlc_bad - unvalidated)[:5])
+    # binding guard on the real recordings: corrupted copies of an accepted trial must be rejected
+    cand = [t for t in all_order if t not in tlc_bad and t not in unvalidated and any(e["kind"] == "inited" for e in all_by_t[t])
             and any(re.fullmatch(r"[0-9a-f]{16}", e["res"] or "") for e in all_by_t[t] if e["kind"] == "ret")]
-    if not cand:
-        raise core.Infra("binding guard: no accepted trial with an initialisation and a digest result")
-    need = {"second-init", "done-before-inited", "corrupted-result"}
-    for t in cand[:40]:
-        for mname, evs in mutants(all_by_t[t]):
-            if mname not in need:
-                continue
-            path = os.path.join(ctx.scratch, "mut-%s.ndjson" % mname)
-            with open(path, "w") as f:
-                for ev in evs:
-                    f.write(json.dumps(ev) + "\n")
-            st, rej = tlc_trace(ctx, path, n, "Trace_LazyInit_guard_" + mname)
-            ctx.tlc_runs.remove(st)
-            if not rej:
-                raise core.Infra("binding guard: Trace_LazyInit accepted a recorded trial with mutation %r" % mname)
-            need.discard(mname)
-            ctx.extra["trace_guard"] = ctx.extra.get("trace_guard", 0) + 1
-        if not need:
-            break
-    if need:
-        raise core.Infra("binding guard: could not build mutations %s" % sorted(need))
+    left = mutation_guard(ctx, [all_by_t[t] for t in cand[:40]], n, "real")
+    if left and not ctx.fails:
+        raise core.Infra("binding guard: could not build mutations %s from the recorded trials" % sorted(left))
 
+    # keep a few representatives per (object kind, failure kind); the counts go to the evidence
+    counts, kept = {}, []
+    prio = {"trace-rejected": 0, "race": 1, "double-init": 2, "early-use": 2, "wrong-result": 2, "wrong-result-persistent": 2, "panic": 1, "hang": 1, "crash": 1}
+    for f in sorted(ctx.fails, key=lambda f: (prio.get(f["kind"], 3), f["idx"])):
+        key = "%s %s" % (f["fam"][len("sched:"):], f["kind"])
+        counts[key] = counts.get(key, 0) + 1
+        if counts[key] <= 3:
+            kept.append(f)
+    if counts:
+        ctx.extra["failure_counts"] = counts
+    ctx.fails = kept
     ctx.replayed = tot["trials"]
     ctx.validated = accepted
     ctx.steps = tot["compared"]
